@@ -384,17 +384,20 @@ func (l *Linter) LintFiles(filepaths []string, project *Project) ([]*Error, erro
 		})
 	}
 
-	if err := eg.Wait(); err != nil {
-		return nil, err
-	}
+	err := eg.Wait()
 
 	// Ensure that all processes finish. `proc.wait()` must be called after `eg.Wait()`.
 	// Calling `WaitGroup.Add` after `WaitGroup.Wait` can cause a race condition (specifically when
 	// increasing the group count from 0 to 1 and calling `Wait` and at the same time).
 	// `WaitGroup.Add` is called in `proc.run()` and `WaitGroup.Wait` is called in `proc.wait()`.
 	// After traversing all workflows, `proc.run()` is no longer called so `proc.wait()` can be
-	// called safely.
+	// called safely. It must be called even if some file caused a fatal error not to leave running
+	// processes behind.
 	proc.wait()
+
+	if err != nil {
+		return nil, err
+	}
 
 	total := 0
 	for i := range ws {
